@@ -155,11 +155,16 @@ class GenericGen:
             it.param_defaults[last] = d.rs()
             it.param_default_tys = {last: d}
         concrete = None
-        if nparams >= 2 and r.random() < 0.25:
+        if nparams >= 2 and r.random() < 0.32:
             # (also a parameter that has a Rust default: `concrete(P = X)` on `P = D`)
             concrete = r.choice(params)
             if concrete:
                 it.concrete = {concrete: r.choice(["i32", "String", "Vec<bool>"])}
+                if nparams >= 2 and r.random() < 0.5:
+                    # two concrete parameters, in one attribute or in one attribute each
+                    other = r.choice([p for p in params if p != concrete])
+                    it.concrete[other] = r.choice(["i32", "String", "Vec<bool>"])
+                    it.concrete_split = r.random() < 0.6
         # generics text
         parts = []
         if lifetime:
@@ -173,9 +178,9 @@ class GenericGen:
             # declared through macro_rules!: every field type reaches the derive as a `$t:ty` fragment
             it.via_macro = True if (it.concrete or r.random() < 0.6) else "tymacro"
             it.tags.append("k:declared-by-macro" if it.via_macro is True else "k:field-types-are-macro-invocations")
-        ts_params = [p for p in params if p != concrete]
+        ts_params = [p for p in params if p not in it.concrete]
         self.meta[it.id] = {"role": "definition", "params": params, "ts_params": ts_params, "defaults": list(it.param_defaults),
-                            "concrete": concrete, "lifetime": lifetime, "const": const, "uses": uses, "kind": kind,
+                            "concrete": sorted(it.concrete) or None, "lifetime": lifetime, "const": const, "uses": uses, "kind": kind,
                             "tags": list(it.tags), "optional_fields": it.optional_fields}
         if nparams == 1 and not lifetime and not const and kind == "named" and not it.param_defaults and not it.optional_fields \
                 and not any(f.inline or f.flatten for f in fields):
@@ -196,14 +201,14 @@ class GenericGen:
                 ak, a = r.choice(arg_pool)
                 if k == 0:
                     ak, a = "user", self.leaves[(params.index(p)) % 3].name      # always one instantiation with arg-only leaves
-                if p == concrete:
+                if p in it.concrete:
                     # `concrete(U = X)` promises that U is X: only that instantiation is meaningful
                     ak, a = "concrete", it.concrete[p]
                 args.append(a)
                 kinds.append(ak)
             full = (["'static"] if lifetime else []) + args + (["3"] if const else [])
             rust = f"{it.name}<{', '.join(full)}>"
-            ts_args = [a for p, a in zip(params, args) if p != concrete]
+            ts_args = [a for p, a in zip(params, args) if p not in it.concrete]
             self.entries.append((f"{it.id}#{k}", rust, ts_args, it, kinds))
         return it
 
